@@ -121,6 +121,8 @@ def main(tier):
     bounds.check(rep, {'raid_pq_gen', 'raid_pq_check'}, 'RAID', 5)
     import horner
     horner.check(rep, 68)
+    import raidlayout
+    raidlayout.check(rep, 4)
     import baseloops
     baseloops.check(rep, 'RAID', ['xor_gen_base', 'pq_gen_base'], 4)
     return rep.finish()
